@@ -59,77 +59,62 @@ def check(run, repo, tier):
   r6_per_record(run, w, rewriters)
 
 
+KEEP = ("_prepare_formula_renames", "_do_doc_action", "_do_extra_doc_action", "_bulk_action_iter",
+        "_adjust_one_column_update", "_pick_col_name")
+
+
+def _views(fn, _cache={}):
+  k = id(fn)
+  if k not in _cache:
+    _cache[k] = (H.View(fn), fn)
+  return _cache[k][0]
+
+
 def r6_per_record(run, w, rewriters):
   """The rename of one record's formula depends on that record (its resource table, its own
   user attributes), not only on the formula text: every record's new text must come from its own
-  process_renames call with a renamer built for it -- never from a memo shared across records."""
+  process_renames call -- never from a memo shared across records."""
   R6 = run.rule("C17-R6", "each record's new formula text is the direct result of a "
-                "process_renames call made for that record with a renamer defined for it",
-                floor=3)
+                "process_renames call made for that record", floor=3)
   for fn, sites in rewriters:
+    v = _views(fn)
     for (n, c) in sites:
-      loops = [s for s in ast.walk(fn.node) if isinstance(s, ast.For) and
-               any(x is c for b in s.body for x in ast.walk(b))]
+      loops = [l for l in v.enclosing_loops(n.stmt) if isinstance(l, ast.For)]
       if not loops:
         raise AnalysisError("%s: process_renames is not called inside a per-record loop"
                             % fn.qualname)
       loop = loops[-1]        # innermost
+      head = v.loop_head(loop)
       st = n.stmt
       var = st.targets[0].id if isinstance(st, ast.Assign) and st.value is c and \
-          isinstance(st.targets[0], ast.Name) else None
+          len(st.targets) == 1 and isinstance(st.targets[0], ast.Name) else None
       ok = var is not None
-      wit = None
+      wit = None if ok else "the result of process_renames is not bound to a local of its own"
       if ok:
-        # every definition of the variable is such a direct call
-        defs = [x for x in ast.walk(fn.node) if isinstance(x, ast.Assign) and
-                any(isinstance(t, ast.Name) and t.id == var for t in x.targets)]
-        direct = all(isinstance(d.value, ast.Call) and
-                     endswith(fn.name(d.value) or "", "process_renames") for d in defs)
-        # the call is not skipped for some records because of a memo: inside the loop body, the
-        # call is not under a test that reads a container written in the same loop
-        conds = []
-        def find(stmts, acc):
-          for b in stmts:
-            if b is st:
-              conds.extend(acc)
-              return True
-            for fld in ("body", "orelse"):
-              sub = getattr(b, fld, None)
-              if isinstance(sub, list) and sub and isinstance(sub[0], ast.stmt):
-                extra = [b.test] if isinstance(b, ast.If) else []
-                if find(sub, acc + extra):
-                  return True
-            if isinstance(b, ast.Try):
-              for h in b.handlers:
-                if find(h.body, acc):
-                  return True
-          return False
-        find(loop.body, [])
-        written = set()
-        for x in ast.walk(loop):
-          if isinstance(x, ast.Assign):
-            for t in x.targets:
-              if isinstance(t, ast.Subscript) and isinstance(t.value, ast.Name):
-                written.add(t.value.id)
-          if isinstance(x, ast.Call) and isinstance(x.func, ast.Attribute) and \
-              x.func.attr in ("setdefault", "update", "add") and isinstance(x.func.value, ast.Name):
-            written.add(x.func.value.id)
-        # containers (re)bound inside the loop are per-record scratch values, not memos
-        rebound = {t.id for x in ast.walk(loop) if isinstance(x, ast.Assign)
-                   for t in x.targets if isinstance(t, ast.Name)}
-        rebound |= {y.id for y in ast.walk(loop.target) if isinstance(y, ast.Name)}
+        # every binding of the variable that is read somewhere is such a direct call
+        sites_ = [d for d, names in v._gens().items() if var in names]
+        direct = all(isinstance(v._plain_value(var, d), ast.Call) and
+                     endswith(fn.name(v._plain_value(var, d)) or "", "process_renames")
+                     for d in sites_)
+        # the call is not skipped for some records because of a memo: it is not evaluated under
+        # a condition that reads a container written in the same loop (and living across records)
+        in_loop = {x.id for x in fn.cfg.nodes if x.stmt is not None and
+                   any(y is x.stmt for b in loop.body for y in ast.walk(b))}
+        written = {nm for nm, nodes in v.du.muts.items() if nodes & in_loop}
+        rebound = {nm for d, names in v._gens().items() if d in in_loop or d == head
+                   for nm in names}
         written -= rebound
-        memo = [text(t) for t in conds
-                if {y.id for y in ast.walk(t) if isinstance(y, ast.Name)} & written]
-        # the renamer is defined for this record: a def inside the same loop body
-        renamer = c.args[2] if len(c.args) >= 3 else None
-        per_rec = isinstance(renamer, ast.Name) and any(
-          isinstance(x, ast.FunctionDef) and x.name == renamer.id
-          for b in loop.body for x in ast.walk(b))
-        ok = direct and not memo and per_rec
-        wit = None if ok else ("definitions not direct calls" if not direct else
-                               "call guarded by a memo: %s" % memo if memo else
-                               "renamer not defined per record")
+        memo = []
+        for (a, pol) in v.facts_at(c, start=head):
+          try:
+            names = {y.id for y in ast.walk(ast.parse(a, mode="eval")) if isinstance(y, ast.Name)}
+          except SyntaxError:
+            names = set()
+          if names & written:
+            memo.append(a)
+        ok = direct and not memo
+        wit = None if ok else ("bindings that are not direct calls" if not direct else
+                               "call guarded by a memo: %s" % memo)
       run.ob(R6, fn.qualname, short(st, 90), "the new text of a record comes from its own "
              "process_renames call", ok, witness=wit, fi=fn.fi, node=st)
 
@@ -175,9 +160,12 @@ def r1_wiring(run, w, rewriters):
   R1 = run.rule("C17-R1", "every predicate-formula rewriter is driven by the rename paths with "
                 "the same rename map, and looks names up with the map's key shape", floor=14)
   col_site = tab_site = None
-  for (fn, call) in H.rename_constructions(w, ("RenameColumn", "RenameTable")):
-    if fn.fi.module.name != "useractions":
+  seen = set()
+  for (fn0, call) in H.rename_constructions(w, ("RenameColumn", "RenameTable")):
+    if fn0.fi.module.name != "useractions" or fn0.qualname in seen:
       continue
+    seen.add(fn0.qualname)
+    fn = H.xfn(w, fn0.qualname, keep=KEEP)
     site = H.RenameSite(fn, ("RenameColumn", "RenameTable"))
     kinds = {e[3] for e in site.emits}
     if "RenameColumn" in kinds:
@@ -188,61 +176,82 @@ def r1_wiring(run, w, rewriters):
     raise AnalysisError("the functions emitting RenameColumn / RenameTable were not found")
   # ---- column renames
   fn = col_site.fn
+  v = col_site.view
+  cfg = fn.cfg
   if len(col_site.preps) != 1:
     raise AnalysisError("%s: one _prepare_formula_renames call expected" % fn.qualname)
   prep_node, prep_call = col_site.preps[0]
-  marg = prep_call.args[0]
-  if not isinstance(marg, ast.Name):
+  marg = col_site.prep_arg(prep_call)
+  mroot = v.alias_root(marg)
+  if not isinstance(mroot, ast.Name):
     raise AnalysisError("%s: the column rename map is not a local name" % fn.qualname)
-  mname = marg.id
-  prep_guard = _guards(fn, fn.cfg.nodes[prep_node].stmt)
-  du = col_site.du
+  mname = mroot.id
+  prep_guard = v.cfg_facts(prep_node)
+  uses = {prep_node}
   for (rfn, sites) in rewriters:
     top = rfn.fi
     while top.parent is not None:
       top = top.parent
     calls = [(n, c) for (n, c, nm) in fn.calls() if _resolves_to(fn, c, top)]
-    ok = len(calls) == 1 and len(calls[0][1].args) == 2 and \
-        text(calls[0][1].args[0]) == "self" and text(calls[0][1].args[1]) == mname and \
-        _guards(fn, fn.cfg.nodes[calls[0][0].id].stmt) == prep_guard
+    ok = len(calls) == 1
+    if ok:
+      n, c = calls[0]
+      b = H.bind_args(c, top.params())
+      ok = b is not None and len(b) == 2 and text(b[top.params()[0]]) == "self" and \
+          isinstance(v.alias_root(b[top.params()[1]]), ast.Name) and \
+          v.alias_root(b[top.params()[1]]).id == mname and v.cfg_facts(n.id) == prep_guard
+      uses.add(n.id)
     run.ob(R1, fn.qualname, "%s(self, %s)" % (top.qualname, mname),
            "the function that emits RenameColumn calls this rewriter with the rename map given "
-           "to the formula renamer, under the same guard (%s)" % (prep_guard,), ok, fi=fn.fi)
-  run.ob(R1, fn.qualname, "%s has a single writer" % mname, "all rewriters see the same renames",
-         len(du.writers(mname)) == 1, fi=fn.fi)
+           "to the formula renamer, under the same guard (%s)"
+           % (sorted(a for a, _ in prep_guard),), ok, fi=fn.fi)
+  writers = {d for d, names in v._gens().items() if mname in names} | \
+      v.du.muts.get(mname, set())
+  run.ob(R1, fn.qualname, "%s is complete before, and not written after, its first use" % mname,
+         "all rewriters see the same renames",
+         bool(writers) and not (cfg.reach_after(uses) & writers) and
+         all(cfg.dominated_by(u, writers) for u in uses), fi=fn.fi)
   # ---- table renames
   fn = tab_site.fn
+  v = tab_site.view
   anchor = w.repo.func("acl.prepare_acl_table_renames")
-  kind, tname, comp, rekey = tab_site.resolve_map(tab_site.preps[0][1].args[0]) \
-      if len(tab_site.preps) == 1 else (None, None, None, None)
+  if len(tab_site.preps) != 1:
+    raise AnalysisError("%s: one _prepare_formula_renames call expected" % fn.qualname)
+  tname, coll, rekey = tab_site.resolve_map(tab_site.prep_arg(tab_site.preps[0][1]))
   if tname is None:
     raise AnalysisError("%s: the table rename map is not a local name" % fn.qualname)
   calls = [(n, c) for (n, c, nm) in fn.calls() if _resolves_to(fn, c, anchor)]
-  ok = len(calls) == 1 and len(calls[0][1].args) == 2 and text(calls[0][1].args[1]) == tname
+  ok = len(calls) == 1
+  if ok:
+    b = H.bind_args(calls[0][1], anchor.params())
+    a1 = v.alias_root(b[anchor.params()[1]]) if b and len(b) == 2 else None
+    ok = isinstance(a1, ast.Name) and a1.id == tname
   run.ob(R1, fn.qualname, "acl.prepare_acl_table_renames(self, %s)" % tname,
          "ACL resources and user attributes are prepared with the table rename map "
          "{old table id: new table id}", ok, fi=fn.fi)
   if ok:
     n, c = calls[0]
-    st = n.stmt
-    cb = st.targets[0].id if isinstance(st, ast.Assign) and isinstance(st.targets[0], ast.Name) \
-        and st.value is c else None
-    inv = {m.id for (m, c2, nm) in fn.calls() if cb is not None and isinstance(c2.func, ast.Name)
-           and c2.func.id == cb and not c2.args}
-    run.ob(R1, fn.qualname, "%s()" % cb, "the prepared ACL updates are applied on every normal "
-           "path after they were prepared", bool(inv) and
+    inv = {m.id for (m, c2, nm) in fn.calls() if not c2.args and not c2.keywords and
+           v.denotes(c2.func, lambda e: e is c)}
+    run.ob(R1, fn.qualname, "<prepared ACL updates>()", "the prepared ACL updates are applied on "
+           "every normal path after they were prepared", bool(inv) and
            fn.cfg.postdominated_by(n.id, inv), fi=fn.fi)
     # the callback writes both ACL tables from the lists filled before
-    inner = w.repo.funcs.get(anchor.qualname + "." + _returned_closure(anchor))
+    inner = w.repo.funcs.get(anchor.qualname + "." + _returned_closure(w, anchor))
     if inner is None:
       raise AnalysisError("acl.prepare_acl_table_renames: returned closure not found")
     ifn = w.fn_of(inner)
-    tabs = sorted(c2.args[0].value for (m, c2, nm) in ifn.calls()
-                  if endswith(nm, "doBulkUpdateFromPairs") and c2.args and
-                  isinstance(c2.args[0], ast.Constant))
-    run.ob(R1, inner.qualname, "doBulkUpdateFromPairs(%s)" % ", ".join(tabs),
+    iv = H.View(ifn)
+    tabs = []
+    for (m, c2, nm) in ifn.calls():
+      if endswith(nm, "doBulkUpdateFromPairs"):
+        b2 = H.bind_args(c2, ("table_id", "record_values_pairs")) or {}
+        t = iv.res(b2.get("table_id")) if b2.get("table_id") is not None else None
+        if isinstance(t, ast.Constant):
+          tabs.append(t.value)
+    run.ob(R1, inner.qualname, "doBulkUpdateFromPairs(%s)" % ", ".join(sorted(tabs)),
            "the callback stores the updates of resources and of rules",
-           tabs == ["_grist_ACLResources", "_grist_ACLRules"], fi=inner)
+           sorted(tabs) == ["_grist_ACLResources", "_grist_ACLRules"], fi=inner)
   # ---- key shape of every lookup in a rename map
   for (rfn, sites) in rewriters:
     top = rfn.fi
@@ -252,23 +261,14 @@ def r1_wiring(run, w, rewriters):
   _key_shapes(run, R1, w, anchor, table_map=True)
 
 
-def _returned_closure(fi):
+def _returned_closure(w, fi):
+  v = H.View(w.fn_of(fi))
   rets = [s for s in walk_no_nested(fi.node) if isinstance(s, ast.Return)]
-  if len(rets) == 1 and isinstance(rets[0].value, ast.Name):
-    return rets[0].value.id
+  if len(rets) == 1:
+    e = v.res(rets[0].value)
+    if isinstance(e, ast.Name):
+      return e.id
   raise AnalysisError("%s does not return a single closure" % fi.qualname)
-
-
-def _guards(fn, stmt):
-  """Normalised tests of the if-statements enclosing stmt (body side only)."""
-  from ..astutil import enclosing_chain
-  out = []
-  for (s, fld) in enclosing_chain(fn.node, stmt):
-    if isinstance(s, ast.If):
-      out.append(("" if fld == "body" else "not ") + text(s.test))
-    elif isinstance(s, (ast.For, ast.While, ast.Try)):
-      out.append("<%s>" % s.__class__.__name__)
-  return tuple(out)
 
 
 def _key_shapes(run, R1, w, top, table_map=False):
@@ -282,17 +282,19 @@ def _key_shapes(run, R1, w, top, table_map=False):
   for f in fis:
     if f is not top and mp in f.params():
       continue
-    for n in ast.walk(f.node) if f is top else walk_no_nested(f.node):
+    fv = H.View(w.fn_of(f))
+    for n in walk_no_nested(f.node):
       if isinstance(n, ast.Call) and isinstance(n.func, ast.Attribute) and \
           n.func.attr == "get" and text(n.func.value) == mp and n.args:
-        keys.append(n.args[0])
+        keys.append((fv, n.args[0]))
       elif isinstance(n, ast.Subscript) and text(n.value) == mp:
-        keys.append(n.slice)
+        keys.append((fv, n.slice))
       elif isinstance(n, ast.Compare) and len(n.ops) == 1 and \
           isinstance(n.ops[0], (ast.In, ast.NotIn)) and text(n.comparators[0]) == mp:
-        keys.append(n.left)
+        keys.append((fv, n.left))
   seen = set()
-  for k in keys:
+  for (fv, k0) in keys:
+    k = fv.res(k0)
     t = text(k)
     if t in seen:
       continue
@@ -303,7 +305,7 @@ def _key_shapes(run, R1, w, top, table_map=False):
     else:
       ok = isinstance(k, ast.Tuple) and len(k.elts) == 2
       what = "column rename maps are keyed by (table id, column id)"
-    run.ob(R1, top.qualname, "%s[%s]" % (mp, t), what, ok, fi=top, node=k)
+    run.ob(R1, top.qualname, "%s[%s]" % (mp, short(k, 70)), what, ok, fi=top, node=k0)
   if not keys:
     raise AnalysisError("%s: the rename map %s is never looked up" % (top.qualname, mp))
 
@@ -323,29 +325,29 @@ def _root_name(expr):
   e = expr
   while isinstance(e, (ast.Subscript, ast.Attribute)):
     e = e.value
+  if isinstance(e, ast.Call) and isinstance(e.func, ast.Attribute) and e.func.attr == "get":
+    return _root_name(e.func.value)
   return e.id if isinstance(e, ast.Name) else None
 
 
-def _ultimate_root(fn, name, depth=4):
-  """config = condition_data.get('config')  =>  condition_data"""
-  for _ in range(depth):
-    vals = E.local_defs(fn.node, name)
-    if len(vals) != 1:
-      return name
-    v = vals[0]
-    if isinstance(v, ast.Call) and isinstance(v.func, ast.Attribute) and v.func.attr == "get" \
-        and isinstance(v.func.value, ast.Name):
-      name = v.func.value.id
-    elif isinstance(v, ast.Subscript) and _root_name(v) is not None:
-      name = _root_name(v)
-    else:
-      return name
-  return name
-
-
-def _is_parser_call(e, newvar):
+def _is_parser_of(v, e, call):
+  """e is parse_predicate_formula[_json](<the new text>)"""
+  e = v.res(e)
   return isinstance(e, ast.Call) and dotted(e.func) is not None and \
-      dotted(e.func).split(".")[-1] in PARSERS and len(e.args) == 1 and text(e.args[0]) == newvar
+      dotted(e.func).split(".")[-1] in PARSERS and len(e.args) == 1 and not e.keywords and \
+      v.denotes(e.args[0], lambda x: x is call)
+
+
+def _field_of(v, src):
+  """(field, canonical container text) of an expression reading one constant field"""
+  if isinstance(src, ast.Subscript) and isinstance(src.slice, ast.Constant):
+    return src.slice.value, text(src.value)
+  if isinstance(src, ast.Attribute):
+    return src.attr, text(src.value)
+  if isinstance(src, ast.Call) and isinstance(src.func, ast.Attribute) and \
+      src.func.attr == "get" and src.args and isinstance(src.args[0], ast.Constant):
+    return src.args[0].value, text(src.func.value)
+  return None, None
 
 
 def r2_paired_fields(run, w, rewriters):
@@ -357,29 +359,33 @@ def r2_paired_fields(run, w, rewriters):
   for (fn, sites) in rewriters:
     q = fn.qualname
     cfg = fn.cfg
-    du = DefUse(fn)
+    v = _views(fn)
     for (node, call) in sites:
       nsites += 1
-      st = node.stmt
-      if not (isinstance(st, ast.Assign) and len(st.targets) == 1 and
-              isinstance(st.targets[0], ast.Name) and st.value is call and len(call.args) == 3):
-        raise AnalysisError("%s: result of process_renames is not bound to a local" % q)
-      newvar = st.targets[0].id
-      oldexpr = call.args[0]
+      pb = H.bind_args(call, ("formula", "collector", "renamer"))
+      if pb is None or len(pb) != 3:
+        raise AnalysisError("%s: process_renames(formula, collector, renamer) expected" % q)
+      oldexpr = pb["formula"]
+      is_new = lambda e: v.denotes(e, lambda x: x is call)
+      loops = [l for l in v.enclosing_loops(node.stmt) if isinstance(l, ast.For)]
+      if not loops or not isinstance(loops[-1].target, ast.Name):
+        raise AnalysisError("%s: formula texts are not rewritten inside a loop over records" % q)
+      loop = loops[-1]
+      head = v.loop_head(loop)
       # ---- where the new text is stored
-      stores = []    # (cfg node, field const, container text or None, kind, stmt)
+      stores = []    # (cfg node, field const, canonical container or None, kind, ast node)
       for n in cfg.nodes:
         s = n.stmt
-        if n.kind != "stmt" or not isinstance(s, ast.Assign):
-          continue
-        if isinstance(s.value, ast.Name) and s.value.id == newvar:
+        if n.kind == "stmt" and isinstance(s, ast.Assign) and is_new(s.value):
           for t in s.targets:
             if isinstance(t, ast.Subscript) and isinstance(t.slice, ast.Constant):
-              stores.append((n, t.slice.value, text(t.value), "subscript", s))
-        if isinstance(s.value, ast.Dict):
-          for k, v in zip(s.value.keys, s.value.values):
-            if isinstance(v, ast.Name) and v.id == newvar and isinstance(k, ast.Constant):
-              stores.append((n, k.value, None, "dict", s))
+              stores.append((n, t.slice.value, v.t(t.value), "subscript", s))
+        for e in n.exprs:
+          for d in walk_no_nested(e):
+            if isinstance(d, ast.Dict):
+              for k, val in zip(d.keys, d.values):
+                if isinstance(k, ast.Constant) and is_new(val):
+                  stores.append((n, k.value, None, "dict", d))
       if len(stores) != 1:
         raise AnalysisError("%s: the text produced by process_renames(%s, ...) is stored %d "
                             "times (once expected)" % (q, short(oldexpr), len(stores)))
@@ -387,114 +393,92 @@ def r2_paired_fields(run, w, rewriters):
       pfield = PAIRED.get(field)
       if pfield is None:
         raise AnalysisError("%s: text field %r has no known parsed counterpart" % (q, field))
-      # ---- the paired parsed field, from the new text, in the same block
+      # ---- the paired parsed field, from the new text, stored together with it
       ok, pn = False, None
       if kind == "dict":
-        for k, v in zip(sst.value.keys, sst.value.values):
-          if isinstance(k, ast.Constant) and k.value == pfield and _is_parser_call(v, newvar):
+        for k, val in zip(sst.keys, sst.values):
+          if isinstance(k, ast.Constant) and k.value == pfield and _is_parser_of(v, val, call):
             ok, pn = True, sn
       else:
-        block = _block_of(fn.node, sst)
-        for b in block:
-          if isinstance(b, ast.Assign) and len(b.targets) == 1 and \
+        for n in cfg.nodes:
+          b = n.stmt
+          if n.kind == "stmt" and isinstance(b, ast.Assign) and len(b.targets) == 1 and \
               isinstance(b.targets[0], ast.Subscript) and \
               isinstance(b.targets[0].slice, ast.Constant) and \
-              b.targets[0].slice.value == pfield and text(b.targets[0].value) == cont and \
-              _is_parser_call(b.value, newvar):
-            ok = True
-            pn = [n for n in cfg.nodes if n.stmt is b][0]
-      run.ob(R2, q, "%s[%r] = parse(%s) next to [%r] = %s"
-             % (cont or "<update>", pfield, newvar, field, newvar),
+              b.targets[0].slice.value == pfield and v.t(b.targets[0].value) == cont and \
+              _is_parser_of(v, b.value, call):
+            # together: whichever comes first, the other follows before the next record
+            both = cfg.path(sn.id, {head, cfg.exit.id}, removed={n.id}, after=True) is None or \
+                cfg.path(n.id, {head, cfg.exit.id}, removed={sn.id}, after=True) is None
+            if both:
+              ok, pn = True, n
+      run.ob(R2, q, "%s[%r] = parse(<new text>) next to [%r] = <new text>"
+             % (cont or "<update>", pfield, field),
              "the parsed form stored beside the new text is parsed from the new text", ok,
              fi=fn.fi, node=sst)
       # ---- only when changed
-      tests = [t for t in _guard_tests(fn, sst)]
-      want = {"%s != %s" % (newvar, text(oldexpr)), "%s != %s" % (text(oldexpr), newvar)}
-      run.ob(R2, q, "if %s != %s" % (newvar, text(oldexpr)),
+      cmp_ = ast.Compare(left=node.stmt.targets[0] if isinstance(node.stmt, ast.Assign)
+                         else call, ops=[ast.Eq()], comparators=[oldexpr])
+      new_t = v.t(call)
+      old_t = v.t(oldexpr)
+      a, b_ = sorted([new_t, old_t])
+      changed = ("%s == %s" % (a, b_), False)
+      facts = v.facts_at(sst, start=head)
+      run.ob(R2, q, "if <new text> != %s" % short(oldexpr, 40),
              "records whose text did not change are left alone (and an unparsable text, which "
              "process_renames returns unchanged, is never re-parsed)",
-             any(text(t) in want for t in tests), fi=fn.fi, node=sst)
+             changed in facts, fi=fn.fi, node=sst)
       # ---- the old text is what the record holds in that field
-      _old_text_source(run, R2, fn, oldexpr, field, cont, sst)
+      _old_text_source(run, R2, fn, v, oldexpr, field, cont, sst)
       # ---- the change reaches the bulk update on every path
-      _reaches_update(run, R2, w, fn, du, sn, pn, sst, kind, cont, schema)
+      _reaches_update(run, R2, w, fn, v, sn, sst, kind, cont, schema, loop, head, call)
   if nsites < 4:
     raise AnalysisError("fewer than 4 process_renames call sites found")
 
 
-def _block_of(fnode, stmt):
-  for n in ast.walk(fnode):
-    for fld in ("body", "orelse", "finalbody"):
-      b = getattr(n, fld, None)
-      if isinstance(b, list) and any(x is stmt for x in b):
-        return b
-    for h in getattr(n, "handlers", []) or []:
-      if any(x is stmt for x in h.body):
-        return h.body
-  raise AnalysisError("statement block not found")
-
-
-def _guard_tests(fn, stmt):
-  from ..astutil import enclosing_chain
-  return [s.test for (s, fld) in enclosing_chain(fn.node, stmt)
-          if isinstance(s, ast.If) and fld == "body"]
-
-
-def _old_text_source(run, R2, fn, oldexpr, field, cont, sst):
+def _old_text_source(run, R2, fn, v, oldexpr, field, cont, sst):
   """The text handed to process_renames is read from the same field the new text is stored in."""
   q = fn.qualname
-  src = oldexpr
-  if isinstance(src, ast.Name):
-    vals = E.local_defs(fn.node, src.id)
-    if len(vals) != 1:
-      raise AnalysisError("%s: old formula text %s has %d definitions" % (q, src.id, len(vals)))
-    src = vals[0]
-  f = None
-  if isinstance(src, ast.Subscript) and isinstance(src.slice, ast.Constant):
-    f, base = src.slice.value, text(src.value)
-  elif isinstance(src, ast.Attribute):
-    f, base = src.attr, text(src.value)
-  elif isinstance(src, ast.Call) and isinstance(src.func, ast.Attribute) and \
-      src.func.attr == "get" and src.args and isinstance(src.args[0], ast.Constant):
-    f, base = src.args[0].value, text(src.func.value)
+  src = v.x(oldexpr)
+  f, base = _field_of(v, src)
   ok = f == field and (cont is None or base == cont)
   run.ob(R2, q, "old text = %s" % short(src), "the text that is renamed is read from the field "
          "(%r) the result is written back to" % field, ok, fi=fn.fi, node=sst)
 
 
-def _reaches_update(run, R2, w, fn, du, sn, pn, sst, kind, cont, schema):
+def _reaches_update(run, R2, w, fn, v, sn, sst, kind, cont, schema, loop, head, call):
   q = fn.qualname
   cfg = fn.cfg
   # lists handed to doBulkUpdateFromPairs(<table>, <list>) that every normal path passes
   bulk = {}
   for (n, c, nm) in fn.calls():
-    if endswith(nm, "doBulkUpdateFromPairs") and len(c.args) == 2 and \
-        isinstance(c.args[0], ast.Constant) and isinstance(c.args[1], ast.Name):
-      if cfg.dominated_by(cfg.exit.id, {n.id}):
-        bulk[c.args[1].id] = (c.args[0].value, n.id)
-  if kind == "dict":
-    carried = {sst.targets[0].id} if isinstance(sst.targets[0], ast.Name) else set()
-  else:
-    carried = {_ultimate_root(fn, _root_name(sst.targets[0]))}
-  loop = H.innermost_loop(fn.node, sst)
-  if loop is None or not isinstance(loop.target, ast.Name):
-    raise AnalysisError("%s: formula texts are not rewritten inside a loop over records" % q)
+    if endswith(nm, "doBulkUpdateFromPairs"):
+      b = H.bind_args(c, ("table_id", "record_values_pairs"))
+      if not b or len(b) != 2:
+        continue
+      t = v.res(b["table_id"])
+      lst = v.alias_root(b["record_values_pairs"])
+      if isinstance(t, ast.Constant) and isinstance(lst, ast.Name) and \
+          cfg.dominated_by(cfg.exit.id, {n.id}):
+        bulk[lst.id] = (t.value, n.id)
   rec = loop.target.id
+  tm = v.loop_map(loop)
+  if kind == "dict":
+    carried = lambda d: any(y is sst for y in ast.walk(v.res(d))) or v.res(d) is sst
+  else:
+    root = _root_name(ast.parse(cont, mode="eval").body)
+    carried = lambda d: root is not None and root in names_loaded(v.x(d))
   appends = {}
   for (n, c, nm) in fn.calls():
     f = c.func
-    if isinstance(f, ast.Attribute) and f.attr == "append" and isinstance(f.value, ast.Name) and \
-        f.value.id in bulk and len(c.args) == 1 and isinstance(c.args[0], ast.Tuple) and \
-        len(c.args[0].elts) == 2 and text(c.args[0].elts[0]) == rec and \
-        (names_loaded(c.args[0].elts[1]) & carried):
-      appends[n.id] = (f.value.id, c.args[0].elts[1])
-  heads = {n.id for n in cfg.nodes if n.stmt is loop and n.kind == "for"}
-  # from the moment the change is detected (first statement of the block storing the new text)
-  first = _block_of(fn.node, sst)[0]
-  starts = [n.id for n in cfg.nodes if n.stmt is first and n.kind not in ("entry", "exit")]
-  if not starts:
-    raise AnalysisError("%s: block storing the new text has no CFG node" % q)
-  esc = _escape_path(cfg, starts[0], set(appends), heads | {cfg.exit.id})
+    if isinstance(f, ast.Attribute) and f.attr == "append" and len(c.args) == 1 and \
+        isinstance(v.alias_root(f.value), ast.Name) and v.alias_root(f.value).id in bulk:
+      a = v.res(c.args[0])
+      if isinstance(a, ast.Tuple) and len(a.elts) == 2 and v.t(a.elts[0], tm) == "_v0" and \
+          carried(a.elts[1]):
+        appends[n.id] = (v.alias_root(f.value).id, a.elts[1])
+  # from the moment the new text is stored
+  esc = _escape_path(cfg, sn.id, set(appends), {head, cfg.exit.id})
   run.ob(R2, q, "%s -> <updates>.append((%s, ...)) -> doBulkUpdateFromPairs" % (short(sst), rec),
          "once the text is replaced, the record's update is queued before the next record is "
          "looked at, on every path (flags set on the way are taken into account)",
@@ -503,10 +487,7 @@ def _reaches_update(run, R2, w, fn, du, sn, pn, sst, kind, cont, schema):
   # the fields stored belong to the table the bulk update names
   for nid, (lst, d) in sorted(appends.items()):
     table = bulk[lst][0]
-    dd = d
-    if isinstance(dd, ast.Name):
-      vals = E.local_defs(fn.node, dd.id)
-      dd = vals[0] if len(vals) == 1 else None
+    dd = v.res(d)
     if not (isinstance(dd, ast.Dict) and all(isinstance(k, ast.Constant) for k in dd.keys)):
       raise AnalysisError("%s: update appended to %s is not a dict literal" % (q, lst))
     cols = {cid for (cid, _, _) in (schema.get(table) or [])}
@@ -517,10 +498,11 @@ def _reaches_update(run, R2, w, fn, du, sn, pn, sst, kind, cont, schema):
 
 
 def _escape_path(cfg, start, targets, stops):
-  """A path from `start` to one of `stops` that avoids `targets`, where an `if <flag>:` whose
-  flag was assigned True on the way (and not reassigned since) only takes its body. None when
-  every path passes a target."""
+  """A path from just after `start` to one of `stops` that avoids `targets`, where an `if` on a
+  flag that was assigned True on the way (and not reassigned since) only takes the branch that
+  flag selects. None when every path passes a target."""
   from collections import deque
+  from .. import guards as G
   init = (start, frozenset())
   prev = {init: None}
   dq = deque([init])
@@ -537,12 +519,15 @@ def _escape_path(cfg, start, targets, stops):
         k2 = known | {nm}
       else:
         k2 = known - {nm}
-    succs = cfg.normal_succ(nid) if hasattr(cfg, "normal_succ") else cfg.succ[nid]
-    if node.kind == "if" and isinstance(s.test, ast.Name) and s.test.id in k2:
-      body_first = [t for t in succs if cfg.nodes[t].stmt is s.body[0]]
-      if not body_first:
-        raise AnalysisError("cannot identify the body successor of `if %s`" % s.test.id)
-      succs = body_first
+    succs = cfg.normal_succ(nid)
+    if node.kind == "if" and nid in cfg.if_true:
+      t_succ = set(cfg.if_true[nid])
+      f_succ = set(succs) - t_succ
+      verdict = _flag_value(s.test, k2)
+      if verdict is True:
+        succs = t_succ & set(succs)
+      elif verdict is False:
+        succs = f_succ
     for t in succs:
       if t in targets:
         continue
@@ -558,6 +543,16 @@ def _escape_path(cfg, start, targets, stops):
           p = prev[p]
         return list(reversed(path))
       dq.append(nxt)
+  return None
+
+
+def _flag_value(test, known):
+  """Truth value of a test made only of flags known to be True, else None."""
+  if isinstance(test, ast.Name):
+    return True if test.id in known else None
+  if isinstance(test, ast.UnaryOp) and isinstance(test.op, ast.Not):
+    x = _flag_value(test.operand, known)
+    return None if x is None else (not x)
   return None
 
 
@@ -606,11 +601,12 @@ def r3_collectors(run, w, rewriters):
                 "of the attribute-name token, mirror the base converter; renamers test only "
                 "entity types their collector emits", floor=18)
   base = w.repo.func("predicate_formula.TreeConverter.visit_Attribute")
+  bv = H.View(w.fn_of(base))
   brets = [s for s in walk_no_nested(base.node) if isinstance(s, ast.Return)]
   if len(brets) != 1:
     raise AnalysisError("TreeConverter.visit_Attribute: one return expected")
   bnode = base.params()[1]
-  base_ret = H.ntext(brets[0].value, {bnode: "_n"})
+  base_ret = bv.t(brets[0].value, {bnode: "_n"})
   ne_fields = None
   node = w.repo.module("predicate_formula").assigns.get("NamedEntity")
   if isinstance(node, ast.Call) and len(node.args) == 2 and isinstance(node.args[1], ast.Tuple):
@@ -619,41 +615,49 @@ def r3_collectors(run, w, rewriters):
     raise AnalysisError("predicate_formula.NamedEntity fields changed: %s" % (ne_fields,))
   done = {}
   for (fn, sites) in rewriters:
+    v = _views(fn)
     for (n, call) in sites:
-      ci = _collector_class(w, fn, call)
+      pb = H.bind_args(call, ("formula", "collector", "renamer")) or {}
+      ci = _collector_class(w, fn, v, pb.get("collector"))
       if ci.qualname not in done:
-        done[ci.qualname] = _collector(run, R3, w, ci, base_ret, bnode)
+        done[ci.qualname] = _collector(run, R3, w, ci, base_ret, bnode, ne_fields)
       types = done[ci.qualname]
       # the renamer handed to process_renames
-      ra = call.args[2]
+      ra = v.res(pb.get("renamer")) if pb.get("renamer") is not None else None
       rfi = w.repo.funcs.get(fn.qualname + "." + ra.id) if isinstance(ra, ast.Name) else None
       if rfi is None:
         raise AnalysisError("%s: renamer %s is not a local closure" % (fn.qualname, short(ra)))
+      rv = H.View(w.fn_of(rfi))
       subj = rfi.params()[0]
       tested = set()
       for x in walk_no_nested(rfi.node):
         if isinstance(x, ast.Compare) and len(x.ops) == 1 and \
             isinstance(x.ops[0], (ast.Eq, ast.NotEq)):
           for a, b in ((x.left, x.comparators[0]), (x.comparators[0], x.left)):
-            if text(a) == subj + ".type" and isinstance(b, ast.Constant):
-              tested.add(b.value)
+            if rv.t(a) == subj + ".type" and isinstance(rv.res(b), ast.Constant):
+              tested.add(rv.res(b).value)
+        elif isinstance(x, ast.Compare) and len(x.ops) == 1 and \
+            isinstance(x.ops[0], (ast.In, ast.NotIn)) and rv.t(x.left) == subj + ".type" and \
+            isinstance(x.comparators[0], (ast.Tuple, ast.List, ast.Set)):
+          tested |= {e.value for e in x.comparators[0].elts if isinstance(e, ast.Constant)}
       run.ob(R3, rfi.qualname, "%s.type in %s" % (subj, sorted(tested)),
              "every entity type the renamer distinguishes is a type %s emits (%s)"
              % (ci.name, sorted(types)), tested <= types, fi=rfi)
       # the new name is looked up under the entity's own name
-      rets = [s.value for s in walk_no_nested(rfi.node) if isinstance(s, ast.Return) and
-              s.value is not None and not (isinstance(s.value, ast.Constant) and
-                                           s.value.value is None)]
+      rets = []
+      for s2 in walk_no_nested(rfi.node):
+        if isinstance(s2, ast.Return) and s2.value is not None:
+          e, at = rv.resolve(s2.value)
+          if not (isinstance(e, ast.Constant) and e.value is None):
+            rets.append((e, at))
       ok = bool(rets)
-      for r in rets:
+      for (r, at) in rets:
         key = r.args[0] if isinstance(r, ast.Call) and isinstance(r.func, ast.Attribute) and \
-            r.func.attr == "get" and len(r.args) == 1 else None
+            r.func.attr == "get" and len(r.args) == 1 else \
+            (r.slice if isinstance(r, ast.Subscript) else None)
+        key = rv.res(key, at=at) if key is not None else None
         last = key.elts[1] if isinstance(key, ast.Tuple) and len(key.elts) == 2 else None
-        if isinstance(last, ast.Name):
-          vals = [s.value for s in walk_no_nested(rfi.node) if isinstance(s, ast.Assign) and
-                  text(s.targets[0]) == last.id]
-          last = vals[0] if len(vals) == 1 else None
-        ok = ok and last is not None and text(last) == subj + ".name"
+        ok = ok and last is not None and rv.t(last, at=at) == subj + ".name"
       run.ob(R3, rfi.qualname, "return <renames>.get((<table>, %s.name))" % subj,
              "the replacement is the rename recorded for the collected name itself", ok, fi=rfi)
   missing = set(COLLECTOR_VARS) - set(done)
@@ -661,49 +665,66 @@ def r3_collectors(run, w, rewriters):
     raise AnalysisError("collector classes not reached from any rewriter: %s" % sorted(missing))
 
 
-def _collector(run, R3, w, ci, base_ret, bnode):
+def _collector_class(w, fn, v, a):
+  """ClassInfo of the collector instantiated as 2nd argument of process_renames."""
+  a = v.res(a) if a is not None else None
+  if not (isinstance(a, ast.Call) and not a.args and not a.keywords):
+    raise AnalysisError("%s: collector argument is not a fresh instance: %s"
+                        % (fn.qualname, short(a)))
+  ci = w.repo.resolve_class_name(fn.fi.module, dotted(a.func))
+  if ci is None:
+    raise AnalysisError("%s: collector class %s not resolved" % (fn.qualname, short(a)))
+  return ci
+
+
+def _collector(run, R3, w, ci, base_ret, bnode, ne_fields):
   fi = ci.methods.get("visit_Attribute")
   if fi is None:
     raise AnalysisError("%s defines no visit_Attribute" % ci.qualname)
+  fn = w.fn_of(fi)
+  v = H.View(fn)
   q = fi.qualname
   nd = fi.params()[1]
   if not any(c.qualname == "predicate_formula.TreeConverter" for c in w.repo.mro(ci)):
     raise AnalysisError("%s does not derive from TreeConverter" % ci.qualname)
-  first = fi.node.body[0]
-  if isinstance(first, ast.Expr) and isinstance(first.value, ast.Constant):
-    first = fi.node.body[1]
-  ok = isinstance(first, ast.Assign) and isinstance(first.targets[0], ast.Name) and \
-      text(first.value) == "self.visit(%s.value)" % nd
-  parent = first.targets[0].id if ok else None
+  # the receiver is converted exactly once, before anything is decided
+  conv = [(n, c) for (n, c, nm) in fn.calls() if text(c) == "self.visit(%s.value)" % nd]
+  ok = len(conv) == 1 and isinstance(conv[0][0].stmt, ast.Assign) and \
+      conv[0][0].stmt.value is conv[0][1] and isinstance(conv[0][0].stmt.targets[0], ast.Name) and \
+      fn.cfg.dominated_by(fn.cfg.exit.id, {conv[0][0].id})
+  parent = conv[0][0].stmt.targets[0].id if ok else None
   run.ob(R3, q, "parent = self.visit(%s.value)" % nd, "the receiver is converted first (so "
          "nested attributes are collected too)", ok, fi=fi)
   if not ok:
     return set()
+  pconv = "self.visit(%s.value)" % nd
   rets = [s for s in walk_no_nested(fi.node) if isinstance(s, ast.Return)]
   got = None
   if len(rets) == 1 and rets[0].value is not None:
-    import re as _re
-    got = _re.sub(r"\b%s\b" % _re.escape(parent), "self.visit(_n.value)",
-                  H.ntext(rets[0].value, {nd: "_n"}))
+    e = v.x(rets[0].value)
+    e = H._Replace(parent, ast.parse(pconv, mode="eval").body).visit(e)
+    got = text(H._Renamer({nd: "_n"}).visit(e))
   run.ob(R3, q, "return ['Attr', %s, %s.attr]" % (parent, nd), "collecting does not change the "
          "converted tree (same result as TreeConverter.visit_Attribute): %s" % base_ret,
          got == base_ret, fi=fi)
-  # the return is reached on every path (no early return skipping it)
   types, seen_vars = set(), set()
-  for s in walk_no_nested(fi.node):
-    if isinstance(s, ast.If):
-      seen_vars |= _recognised_vars(s.test, parent)
+  for n in fn.cfg.nodes:
+    if n.kind == "if":
+      seen_vars |= _recognised_vars(n.stmt.test, parent) | _recognised_vars(v.x(n.stmt.test), pconv)
   appends = [c for c in calls_in(fi.node.body) if isinstance(c.func, ast.Attribute) and
-             c.func.attr == "append" and text(c.func.value) == "self.entities"]
+             c.func.attr == "append" and v.t(c.func.value) == "self.entities"]
   if not appends:
     raise AnalysisError("%s records no entities" % q)
+  ents = []
   for c in appends:
-    a = c.args[0] if c.args else None
-    ok = isinstance(a, ast.Call) and dotted(a.func) == "NamedEntity" and len(a.args) == 4 and \
-        not a.keywords and isinstance(a.args[0], ast.Constant) and \
-        text(a.args[1]) == "%s.last_token.startpos" % nd and text(a.args[2]) == "%s.attr" % nd
+    a = v.res(c.args[0]) if c.args else None
+    b = H.bind_args(a, ne_fields) if isinstance(a, ast.Call) and \
+        dotted(a.func) == "NamedEntity" else None
+    ok = b is not None and len(b) == 4 and isinstance(v.res(b["type"]), ast.Constant) and \
+        v.t(b["start_pos"]) == "%s.last_token.startpos" % nd and v.t(b["name"]) == "%s.attr" % nd
     if ok:
-      types.add(a.args[0].value)
+      types.add(v.res(b["type"]).value)
+      ents.append((c, b))
     run.ob(R3, q, short(c), "an entity is (type, start of the attribute-name token, attribute "
            "name, extra): the patch later replaces len(name) characters from that start", ok,
            fi=fi, node=c)
@@ -714,14 +735,12 @@ def _collector(run, R3, w, ci, base_ret, bnode):
          "exactly the record variables of its formula language (%s)" % why, seen_vars == want,
          fi=fi)
   # an entity whose table depends on a user attribute carries the attribute name as extra
-  for c in appends:
-    a = c.args[0]
-    if isinstance(a, ast.Call) and len(a.args) == 4 and isinstance(a.args[0], ast.Constant) and \
-        a.args[0].value == "userAttrCol":
-      run.ob(R3, q, "NamedEntity('userAttrCol', ..., extra=%s)" % text(a.args[3]),
+  for (c, b) in ents:
+    if v.res(b["type"]).value == "userAttrCol":
+      run.ob(R3, q, "NamedEntity('userAttrCol', ..., extra=%s)" % text(b["extra"]),
              "user.ATTR.COL records ATTR (the attribute part of the converted receiver "
              "['Attr', ['Name','user'], ATTR]) so the renamer can find ATTR's table",
-             text(a.args[3]) == parent + "[2]", fi=fi, node=c)
+             v.t(b["extra"]) == pconv + "[2]", fi=fi, node=c)
   return types
 
 
@@ -731,13 +750,15 @@ def r4_process_renames(run, w):
   R4 = run.rule("C17-R4", "process_renames patches the dollar-free text at the collected "
                 "positions, maps back through the same replacer, and returns unparsable input "
                 "unchanged", floor=7)
-  fn = w.fn("predicate_formula.process_renames")
+  fn = H.xfn(w, "predicate_formula.process_renames", keep=("get_dollar_replacer",))
+  v = H.View(fn)
+  cfg = fn.cfg
   q = fn.qualname
   formula, collector, renamer = fn.fi.params()[:3]
-  du = DefUse(fn)
+  rebinds = [d for d, names in v._gens().items() if formula in names]
   run.ob(R4, q, "%s is never rebound" % formula, "the text returned and patched is the caller's "
-         "text", not du.defs.get(formula), fi=fn.fi)
-  tries = [s for s in fn.node.body if isinstance(s, ast.Try)]
+         "text", not rebinds, fi=fn.fi)
+  tries = [s for s in walk_no_nested(fn.node) if isinstance(s, ast.Try)]
   if len(tries) != 1:
     raise AnalysisError("%s: one try statement expected" % q)
   tr = tries[0]
@@ -749,72 +770,80 @@ def r4_process_renames(run, w):
   hs = [h for h in tr.handlers if h.type is not None and
         "SyntaxError" in {dotted(x) for x in ([h.type] if not isinstance(h.type, ast.Tuple)
                                               else h.type.elts)}]
-  ok = len(hs) == 1 and len(hs[0].body) == 1 and isinstance(hs[0].body[0], ast.Return) and \
-      text(hs[0].body[0].value) == formula
+  ok = len(hs) == 1
+  if ok:
+    body = [b for b in hs[0].body if not isinstance(b, ast.Pass)]
+    hr = [b for b in hs[0].body for x in walk_no_nested(b) if isinstance(x, ast.Return)]
+    ok = bool(body) and isinstance(body[-1], ast.Return) and \
+        all(isinstance(b, (ast.Return, ast.Assign, ast.Expr)) for b in body) and \
+        v.t(body[-1].value) == formula
   run.ob(R4, q, "except SyntaxError: return %s" % formula,
          "a formula that does not parse is returned exactly as it came in", ok, fi=fn.fi,
          node=tr)
   # the dollar replacer and the text parsed
-  defs = {}
-  for s in walk_no_nested(fn.node):
-    if isinstance(s, ast.Assign) and len(s.targets) == 1 and isinstance(s.targets[0], ast.Name):
-      defs.setdefault(s.targets[0].id, []).append(s.value)
-  repl = [k for k, v in defs.items() if len(v) == 1 and isinstance(v[0], ast.Call) and
-          dotted(v[0].func) == "get_dollar_replacer" and text(v[0].args[0]) == formula]
-  if len(repl) != 1:
-    raise AnalysisError("%s: get_dollar_replacer(%s) not found" % (q, formula))
-  repl = repl[0]
-  nodollar = {k for k, v in defs.items() if len(v) == 1 and text(v[0]) == repl + ".get_text()"}
-  texts = nodollar | {repl + ".get_text()"}
+  repl = "get_dollar_replacer(%s)" % formula
+  nodollar = repl + ".get_text()"
   parse = [c for c in calls_in(tr.body) if text(c.func) == "ast.parse"]
   atok = [c for c in calls_in(tr.body) if endswith(dotted(c.func), "asttokens.ASTTokens")]
-  ok = len(parse) == 1 and text(parse[0].args[0]) in texts and len(atok) == 1 and \
-      text(atok[0].args[0]) in texts
+  ok = len(parse) == 1 and bool(parse[0].args) and v.t(parse[0].args[0]) == nodollar and \
+      len(atok) == 1 and bool(atok[0].args) and v.t(atok[0].args[0]) == nodollar
   run.ob(R4, q, "asttokens.ASTTokens(<no-dollar text>, tree=ast.parse(<no-dollar text>))",
          "token positions refer to the dollar-free text", ok, fi=fn.fi, node=tr)
   # the patch
-  loops = [s for s in fn.node.body if isinstance(s, ast.For) and
-           text(s.iter) == collector + ".entities"]
-  if len(loops) != 1:
-    raise AnalysisError("%s: loop over %s.entities not found" % (q, collector))
+  mk = [(n, c) for (n, c, nm) in fn.calls() if endswith(nm, "textbuilder.make_patch", "make_patch")]
+  if len(mk) != 1:
+    raise AnalysisError("%s: one make_patch call expected" % q)
+  mn, mc = mk[0]
+  loops = [l for l in v.enclosing_loops(mn.stmt) if isinstance(l, ast.For)]
+  if len(loops) != 1 or not isinstance(loops[0].target, ast.Name) or \
+      v.t(loops[0].iter) != collector + ".entities":
+    raise AnalysisError("%s: the patch is not made in one loop over %s.entities" % (q, collector))
   lp = loops[0]
-  subj = text(lp.target)
-  mk = [c for b in lp.body for c in calls_in(b)
-        if endswith(dotted(c.func), "textbuilder.make_patch", "make_patch")]
-  if len(mk) != 1 or len(mk[0].args) != 4:
-    raise AnalysisError("%s: one make_patch call expected in the entity loop" % q)
-  a = mk[0].args
-  newv = [text(s.targets[0]) for b in lp.body for s in ast.walk(b) if isinstance(s, ast.Assign)
-          and isinstance(s.value, ast.Call) and text(s.value) == "%s(%s)" % (renamer, subj)]
-  ok = text(a[0]) in texts and text(a[1]) == subj + ".start_pos" and \
-      text(a[2]) in ("%s.start_pos + len(%s.name)" % (subj, subj),
-                     "len(%s.name) + %s.start_pos" % (subj, subj)) and \
-      len(newv) == 1 and text(a[3]) == newv[0]
-  run.ob(R4, q, short(mk[0]), "the patch replaces exactly the old name, [start, start+len(name)), "
-         "in the dollar-free text with what the renamer returned", ok, fi=fn.fi, node=mk[0])
-  guard = [s for s in lp.body if isinstance(s, ast.If) and newv and
-           text(s.test) in ("%s is not None" % newv[0], newv[0])]
+  tm = v.loop_map(lp)
+  a = H.bind_args(mc, ("full_text", "start", "end", "new_text"))
+  if a is None or len(a) != 4:
+    raise AnalysisError("%s: make_patch(text, start, end, new) with four arguments expected" % q)
+  new_t = "%s(_v0)" % renamer
+  ok = v.t(a["full_text"], tm) == nodollar and v.t(a["start"], tm) == "_v0.start_pos" and \
+      v.t(a["end"], tm) in ("_v0.start_pos + len(_v0.name)", "len(_v0.name) + _v0.start_pos") and \
+      v.t(a["new_text"], tm) == new_t
+  run.ob(R4, q, short(mc), "the patch replaces exactly the old name, [start, start+len(name)), "
+         "in the dollar-free text with what the renamer returned", ok, fi=fn.fi, node=mc)
+  facts = v.facts_at(mc, start=tm.head, mapping=tm)
   run.ob(R4, q, "if <new name> is not None", "entities the renamer does not rename produce no "
-         "patch", len(guard) == 1 and any(x is mk[0] for x in ast.walk(guard[0])), fi=fn.fi,
+         "patch", H.canon_atom("%s is None" % new_t, False) in facts or (new_t, True) in facts, fi=fn.fi,
          node=lp)
-  mb = [c for b in lp.body for c in calls_in(b) if isinstance(c.func, ast.Attribute) and
+  mb = [(n, c) for (n, c, nm) in fn.calls() if isinstance(c.func, ast.Attribute) and
         c.func.attr == "map_back_patch"]
-  ok = len(mb) == 1 and text(mb[0].func.value) == repl and len(mb[0].args) == 1 and \
-      (mb[0].args[0] is mk[0] or text(mb[0].args[0]) in
-       [text(s.targets[0]) for b in lp.body for s in ast.walk(b)
-        if isinstance(s, ast.Assign) and s.value is mk[0]])
+  ok = len(mb) == 1 and v.t(mb[0][1].func.value) == repl and len(mb[0][1].args) == 1 and \
+      v.denotes(mb[0][1].args[0], lambda e: e is mc)
   run.ob(R4, q, "%s.map_back_patch(<patch>)" % repl, "positions are translated back to the "
          "original text (with its $ signs) by the replacer that removed them", ok, fi=fn.fi,
          node=lp)
-  rets = [s for s in fn.node.body if isinstance(s, ast.Return)]
+  # the mapped-back patch (3rd component) of every renamed entity is what the result is built from
+  plist = None
+  if ok:
+    st = mb[0][0].stmt
+    tgt = st.targets[0] if isinstance(st, ast.Assign) and st.value is mb[0][1] else None
+    third = tgt.elts[2].id if isinstance(tgt, (ast.Tuple, ast.List)) and len(tgt.elts) == 3 and \
+        isinstance(tgt.elts[2], ast.Name) else None
+    for (n, c, nm) in fn.calls():
+      if isinstance(c.func, ast.Attribute) and c.func.attr == "append" and len(c.args) == 1 and \
+          isinstance(c.func.value, ast.Name):
+        arg = c.args[0]
+        direct = isinstance(arg, ast.Subscript) and isinstance(arg.slice, ast.Constant) and \
+            arg.slice.value == 2 and v.denotes(arg.value, lambda e: e is mb[0][1])
+        named = third is not None and isinstance(arg, ast.Name) and arg.id == third and \
+            v.reaching(third, n.id) == frozenset([mb[0][0].id])
+        if (direct or named) and \
+            cfg.path(mb[0][0].id, {tm.head, cfg.exit.id}, removed={n.id}, after=True) is None:
+          plist = c.func.value.id
+  rets = [s for s in walk_no_nested(fn.node) if isinstance(s, ast.Return) and
+          not any(s is x for h in tr.handlers for b in h.body for x in ast.walk(b))]
   ok = False
-  if len(rets) == 1:
-    v = rets[0].value
-    inner = v.func.value if isinstance(v, ast.Call) and isinstance(v.func, ast.Attribute) and \
-        v.func.attr == "get_text" else None
-    ok = isinstance(inner, ast.Call) and endswith(dotted(inner.func), "textbuilder.Replacer") and \
-        len(inner.args) == 2 and text(inner.args[0]) in ("textbuilder.Text(%s)" % formula,) and \
-        isinstance(inner.args[1], ast.Name)
+  if len(rets) == 1 and plist is not None:
+    ok = v.t(rets[0].value) == "textbuilder.Replacer(textbuilder.Text(%s), %s).get_text()" \
+        % (formula, plist)
   run.ob(R4, q, "return textbuilder.Replacer(textbuilder.Text(%s), patches).get_text()" % formula,
          "the mapped-back patches are applied to the original text", ok, fi=fn.fi)
 
@@ -828,8 +857,10 @@ def r5_two_passes(run, w, rewriters):
   for (fn, sites) in rewriters:
     cfg = fn.cfg
     du = DefUse(fn)
+    v = _views(fn)
     for (node, call) in sites:
-      ra = call.args[2]
+      pb = H.bind_args(call, ("formula", "collector", "renamer")) or {}
+      ra = v.res(pb["renamer"]) if pb.get("renamer") is not None else None
       rfi = w.repo.funcs.get(fn.qualname + "." + ra.id) if isinstance(ra, ast.Name) else None
       if rfi is None:
         continue
